@@ -558,13 +558,13 @@ const XMLCh* DOMNodeImpl::lookupNamespaceURI(const XMLCh* specifiedPrefix) const
                         // at this point we are dealing with DOM Level 2 nodes only
                         if (specifiedPrefix == 0 &&
                             XMLString::equals(attr->getNodeName(), XMLUni::fgXMLNSString)) {
-                            // default namespace
-                            return value;
+                            // default namespace; an empty value un-declares it
+                            return (value && *value) ? value : 0;
                         } else if (attrPrefix != 0 &&
                                    XMLString::equals(attrPrefix, XMLUni::fgXMLNSString) &&
                                    XMLString::equals(attr->getLocalName(), specifiedPrefix)) {
-                            // non default namespace
-                            return value;
+                            // non default namespace; an empty value un-declares the prefix
+                            return (value && *value) ? value : 0;
                         }
                     }
                 }
